@@ -130,6 +130,13 @@ def _worker(job):
         seq_first[cj] = run_call(make_call(c))
         seq_warm[cj] = run_call(make_call(c))
 
+    # a thread that neither parks nor finishes within this time is taken to be waiting for a paused thread
+    import time as _time
+    _t0 = _time.time()
+    reset()
+    run_call(make_call(next(iter(calls.values())))) if calls else None
+    BLOCK_TIMEOUT = max(3.0, 8.0 * (_time.time() - _t0))
+
     def probe_key(c):
         """the key whose presence decides the outcome of call c, for the abstraction of the state"""
         if c[0] in ("Get", "Is"):
@@ -172,12 +179,14 @@ def _worker(job):
         return obs
 
     class T(threading.Thread):
-        def __init__(self, fn, traced, ctl):
+        def __init__(self, fn, traced):
             super().__init__(daemon=True)
-            self.fn, self.traced, self.ctl = fn, traced, ctl
+            self.fn, self.traced = fn, traced
+            self.ctl = threading.Semaphore(0)   # released whenever this thread parks at a pre-emption point or finishes
             self.go = threading.Semaphore(0)
             self.finished = False
             self.free = False
+            self.blocked = False  # last wait timed out: the thread waits for something another (paused) thread holds
             self.result = None
             self.nev = 0        # line events seen
             self.allowed = 0    # line events the controller has allowed the thread to pass
@@ -211,51 +220,62 @@ def _worker(job):
                 self.finished = True
                 self.ctl.release()
 
-    def wait(ctl):
-        if not ctl.acquire(timeout=120):
-            raise RuntimeError("controlled thread did not reach the next pre-emption point")
+    def wait(t, timeout):
+        """wait until thread t parks or finishes; False (and t.blocked) when it does neither within `timeout`:
+        it is then waiting for something a paused thread holds (a lock), which is legitimate"""
+        if t.ctl.acquire(timeout=timeout):
+            t.blocked = False
+            return True
+        t.blocked = True
+        return False
 
     def run_schedule(s):
         reset()
-        ctl = threading.Semaphore(0)
-        ths = [T(make_call(c), bool(tr), ctl) for c, tr in zip(s["threads"], s["traced"])]
+        ths = [T(make_call(c), bool(tr)) for c, tr in zip(s["threads"], s["traced"])]
         obs, where = [], []
         for tid, n in s["segs"]:
             t = ths[tid]
+            if t.blocked and not wait(t, 0.05):
+                obs.append(observe(s["threads"]))     # still waiting for a paused thread
+                where.append(["blocked", 0])
+                continue
             if not t.started:
                 t.started = True
+                t.start()
                 if not t.traced:
-                    t.start()
-                    wait(ctl)
-                    t.join()
-                else:
-                    t.start()
-                    wait(ctl)       # parked before its first line (or finished)
-            if t.traced:
+                    if wait(t, BLOCK_TIMEOUT):
+                        t.join()
+                elif not wait(t, BLOCK_TIMEOUT):       # parked before its first line (or finished)
+                    pass
+            if t.traced and not t.blocked:
                 if n < 0:
                     if not t.finished:
                         t.free = True
                         t.go.release()
-                        wait(ctl)
-                        t.join()
+                        if wait(t, BLOCK_TIMEOUT):
+                            t.join()
                 else:
                     if n > 0 and not t.finished:
                         t.allowed += n
                         t.go.release()
-                        wait(ctl)
+                        wait(t, BLOCK_TIMEOUT)
             obs.append(observe(s["threads"]))
-            where.append(t.where)
-        # let every thread finish
-        for t in ths:
-            if t.started and not t.finished:
-                t.free = True
-                t.go.release()
-                wait(ctl)
+            where.append(["blocked", 0] if t.blocked else t.where)
+        # let every thread finish: free all of them first (a blocked thread needs the others to move on)
         for t in ths:
             if not t.started:
+                t.started = True
+                t.free = True
                 t.start()
-                wait(ctl)
-        return {"results": [t.result for t in ths], "obs": obs, "where": where, "nev": [t.nev for t in ths]}
+            elif not t.finished:
+                t.free = True
+                t.go.release()
+        for t in ths:
+            t.join(timeout=300)
+            if t.is_alive():
+                raise RuntimeError("thread did not finish after all threads were released (deadlock in the code under test?)")
+        return {"results": [t.result for t in ths], "obs": obs, "where": where, "nev": [t.nev for t in ths],
+                "blocked": [bool(w and w[0] == "blocked") for w in where]}
 
     out = []
     for s in job["schedules"]:
@@ -393,6 +413,17 @@ def run(ck):
                     schedules.append({"threads": [a, b], "traced": [1, 1],
                                       "segs": [[0, Na - dp], [1, Na - dq], [0, k], [1, -1], [0, -1]]})
                     tags.append(("window", a, b, (Na - dp, Na - dq, k)))
+    # stale guard: a second builder is parked just after it found the table empty (first lines of its call / of the
+    # build function); the first thread builds, publishes and is parked around its own lookup; then the second one
+    # advances a few lines (anything it does to the shared table on entering the build happens now)
+    for a, b in ([(["Get", 225], ["Get", "Fm-3m"]), (["Find", 225, "same"], ["Find", 62, "same"])]):
+        Na = npts[json.dumps(a)]
+        for q in range(1, 7 if quick else 10):
+            for dp in range(0, 6 if quick else 10):
+                for k in (1, 2, 4) if quick else (1, 2, 3, 4, 6):
+                    schedules.append({"threads": [a, b], "traced": [1, 1],
+                                      "segs": [[1, q], [0, Na - dp], [1, k], [0, -1], [1, -1]]})
+                    tags.append(("staleguard", a, b, (q, Na - dp, k)))
     if not quick:
         # three threads: builder, second builder parked inside its build, reader parked between `in` and subscript
         for _ in range(600):
